@@ -30,6 +30,7 @@ func c19(c *Ctx) {
 	c19R6(c)
 	c19R7(c)
 	c19R8(c)
+	c19R9(c)
 }
 
 func c19R1(c *Ctx) {
